@@ -46,7 +46,8 @@ ASSUMPTIONS = ['latitude taken from RFC 3501: superior names implied by '
 BUDGET = {'quick': (400, 16), 'thorough': (8000, 16)}
 
 COMPS = ['a', 'b', 'c', 'A', 'Inbox', 'x*', '%y', 'q"t', 'b\\s', 'n\nl', 'é',
-         '中 文', 'a b', 'a&b', '~', 'inbox', 'a.b', 'x.y', '.h', 'c.']
+         '中 文', 'a b', 'a&b', '~', 'inbox', 'a.b', 'x.y', '.h', 'c.',
+         'cur', 'new', 'tmp', 'L' * 300, '\u0131nbox', 'maildirfolder']
 PATTERNS = ['*', '%', '%/%', 'a*', '*b', 'a/%', 'a/*', '*/c', 'INB*', 'inbox',
             '%b%', 'a/%/c', '*x*', 'n*', '*\n*', '%l', 'q*', '*é', 'A']
 PTOKENS = ['*', '%', '/', 'a', 'b', 'c', 'A', '*']
@@ -88,12 +89,21 @@ def _name(a: int, b: int, existing: list[str]) -> str:
 
 def _may_refuse(name: str, backend: str) -> bool:
     """names a maildir layout cannot represent: '.' and '..' components
-    (both layouts), any dot under Maildir++"""
+    and over-long ones (both layouts), any dot under Maildir++, the maildir
+    sub-directory names cur/new/tmp under the fs layout"""
     if not backend.startswith('maildir'):
         return False
     if backend == 'maildir++' and '.' in name:
         return True
-    return any(p in ('.', '..') for p in name.split('/'))
+    parts = name.split('/')
+    if backend == 'maildirfs' and any(p in ('cur', 'new', 'tmp',
+                                            'maildirfolder')
+                                      for p in parts):
+        return True      # the parent maildir's own sub-directories / files
+    if any(len(p.encode()) > 200 for p in parts) or \
+            len(name.encode()) > 200 and backend == 'maildir++':
+        return True      # longer than a file name can be
+    return any(p in ('.', '..') for p in parts)
 
 
 def _lit(name: str) -> bytes:
@@ -102,7 +112,9 @@ def _lit(name: str) -> bytes:
 
 
 def _canon(name: str) -> str:
-    return 'INBOX' if name.upper() == 'INBOX' else name
+    # INBOX is case-insensitive in ASCII only: str.upper() would also turn
+    # a dotless i (U+0131) into 'I'
+    return 'INBOX' if name.isascii() and name.upper() == 'INBOX' else name
 
 
 def _ancestors(name: str) -> list[str]:
@@ -180,7 +192,7 @@ def run_case(case: dict[str, Any]) -> CaseOut:
             dotted = _may_refuse(nm, backend)
             if '.' in nm:
                 out.label('name-with-dot')
-            if '/' in nm and nm.split('/')[0].upper() == 'INBOX':
+            if '/' in nm and _canon(nm.split('/')[0]) == 'INBOX':
                 continue       # inferiors of INBOX: optional behaviour
             if re.search(r'[*%\n]|[^\x00-\x7f]', nm):
                 nt = True
@@ -229,9 +241,21 @@ def run_case(case: dict[str, Any]) -> CaseOut:
             elif op == 'rename':
                 to = _canon(_name(k, d, existing))
                 dotted_to = _may_refuse(to, backend)
-                if to == nm or to.startswith(nm + '/') or \
-                        nm.startswith(to + '/') or (
-                            '/' in to and to.split('/')[0].upper() == 'INBOX'):
+                if to == nm or nm.startswith(to + '/') or (
+                        '/' in to and _canon(to.split('/')[0]) == 'INBOX'):
+                    continue
+                if to.startswith(nm + '/'):
+                    # onto its own inferior: RFC 3501 does not say what
+                    # happens, so only "answered, and nothing changes when
+                    # the answer is NO" is demanded; after an OK the model
+                    # cannot follow and the case ends
+                    out.label('rename-onto-own-inferior')
+                    res = c.command(b'RENAME ' + _lit(nm) + b' ' + _lit(to))
+                    if res.ok or c.conn.done:
+                        if c.conn.done:
+                            fail('connection-lost',
+                                 f'rename {nm!r} -> {to!r}: {res.raw[-160:]!r}')
+                        break
                     continue
                 res = c.command(b'RENAME ' + _lit(nm) + b' ' + _lit(to))
                 desc = f'rename {nm!r} -> {to!r}'
@@ -346,7 +370,7 @@ def run_case(case: dict[str, Any]) -> CaseOut:
                 if op == 'list':
                     must = {n for n in names if list_match(
                         query if n != 'INBOX' else query, n)
-                        or (n == 'INBOX' and list_match(query.upper(),
+                        or (n == 'INBOX' and query.isascii() and list_match(query.upper(),
                                                         'INBOX'))}
                     may = must | {n for n in maybe if list_match(query, n)}
                     if not must <= selectable:
@@ -371,7 +395,7 @@ def run_case(case: dict[str, Any]) -> CaseOut:
                 else:
                     must = {n for n in subs if n in names
                             and list_match(query, n)}
-                    if 'INBOX' in subs and list_match(query.upper(), 'INBOX'):
+                    if 'INBOX' in subs and query.isascii() and list_match(query.upper(), 'INBOX'):
                         must.add('INBOX')
                     if not must <= set(listed):
                         fail('lsub-misses-subscribed-mailbox',
@@ -383,8 +407,9 @@ def run_case(case: dict[str, Any]) -> CaseOut:
                             anc_ok = any(s.startswith(n + '/') for s in subs)
                             if not (n in subs or anc_ok) or not (
                                     list_match(query, n) or
-                                    (n == 'INBOX' and list_match(
-                                        query.upper(), 'INBOX'))):
+                                    (n == 'INBOX' and query.isascii()
+                                     and list_match(query.upper(),
+                                                    'INBOX'))):
                                 fail('lsub-returns-unsubscribed-or-'
                                      'nonmatching', f'LSUB {ref!r} {pat!r}: '
                                      f'{n!r}; subscribed {sorted(subs)}')
